@@ -1,1 +1,82 @@
-// harnesses for unit consistent_hash (mounted under cfg(kani) by the hook in /repo)
+//! K5 — `ConsistentHash::{with_hasher, call}` (tarpc/src/client/stub/load_balance.rs), mounted
+//! inside `mod consistent_hash`.
+use super::*;
+use crate::client::stub::Stub;
+use crate::verif_kani_support::{any_instant, run};
+use std::cell::Cell;
+use std::hash::{BuildHasher, Hasher};
+
+pub struct Rec<'a> {
+    pub idx: u8,
+    pub hit: &'a Cell<u8>,
+}
+impl<'a> stub::Stub for Rec<'a> {
+    type Req = u32;
+    type Resp = u32;
+    async fn call(&self, _ctx: context::Context, request: u32) -> Result<u32, RpcError> {
+        self.hit.set(self.idx);
+        Ok(request)
+    }
+}
+
+/// A symbolic hash function: deterministic (equal inputs => equal hash) with a symbolic offset
+/// `base`, so that the hash of the request under test ranges over all of u64. (A multiplicative
+/// mix made the SAT problem intractable; the stub only ever uses `finish() % len`.)
+#[derive(Clone, Copy)]
+pub struct SymBuild {
+    pub base: u64,
+    pub mul: u64,
+}
+pub struct SymHasher {
+    acc: u64,
+    mul: u64,
+}
+impl Hasher for SymHasher {
+    fn write(&mut self, bytes: &[u8]) {
+        let mut i = 0;
+        while i < bytes.len() {
+            self.acc = self.acc.wrapping_add(bytes[i] as u64);
+            i += 1;
+        }
+    }
+    fn finish(&self) -> u64 {
+        self.acc
+    }
+}
+impl BuildHasher for SymBuild {
+    type Hasher = SymHasher;
+    fn build_hasher(&self) -> SymHasher {
+        SymHasher { acc: self.base, mul: self.mul }
+    }
+}
+
+/// C20: a consistent-hash stub only ever picks a valid backend (no panic for any hash value
+/// and any backend count >= 1), the backend is hash(request) % len, and equal requests go to
+/// the same backend. Full domain in the hash function parameters and the request; BOUNDED in
+/// the backend count (1..=3).
+#[kani::proof]
+#[kani::unwind(8)]
+fn k5_consistent_hash_valid_and_stable() {
+    let hit = Cell::new(255u8);
+    let n: u8 = kani::any();
+    kani::assume(n >= 1 && n <= 3);
+    let mut stubs = Vec::new();
+    let mut i = 0u8;
+    while i < n {
+        stubs.push(Rec { idx: i, hit: &hit });
+        i += 1;
+    }
+    let hb = SymBuild { base: kani::any(), mul: kani::any() };
+    let ch = ConsistentHash::with_hasher(stubs, hb).unwrap();
+    assert!(ch.stubs_len == n as u64 && ch.stubs.len() == n as usize, "C20: stubs_len is the number of backends");
+    let req: u32 = kani::any();
+    let ctx = context::Context { deadline: any_instant(), trace_context: Default::default() };
+    let h = ch.hash_request(&req);
+    let _ = run(ch.call(ctx, req));
+    let first = hit.get();
+    assert!(first < n, "C20: only ever picks a valid backend");
+    assert!(first as u64 == h % (n as u64), "C20: backend == hash(request) % backend count");
+    hit.set(255);
+    let _ = run(ch.call(ctx, req));
+    assert!(hit.get() == first, "C20: equal requests go to the same backend");
+}
